@@ -7,7 +7,7 @@ KEYS.setdefault('dispatchcloud_c14', {
 })
 
 CHECKS['C15'] = {
-    'ready': False,
+    'ready': True,
     'level': 'exploration',
     'rule': 'PRNG-generated (seeded from the shard seed) end-to-end scenarios run against the real dispatcher.run()+scheduler+'
             'worker.Pool+sshexecutor over loopback SSH to test.StubDriver VMs and test.Queue: 20-120 (quick) / 20-500 (thorough) '
@@ -20,7 +20,7 @@ CHECKS['C15'] = {
             'Verdict: VIOLATION only if container states, instance set and process tables are all unchanged for >=10 s '
             '(stretched to 5x the fault-free 50-container run time on a busy machine) while the scheduler keeps reading the queue, a harness '
             'heartbeat shows the process had the CPU (>=600 ticks/s) and probe round trips are shorter than SyncInterval/2 (else inconclusive); '
-            'still changing at D=max(60 s, 100x fault-free time) is reported as inconclusive (exit 2).',
+            'still changing at D=max(60 s, 100x fault-free time), capped at 120 s (quick) / 300 s (thorough) so that a shard stays inside its time-out, is reported as inconclusive (exit 2).',
     'assumptions': [
         'test.StubDriver/test.StubVM/test.Queue stand in for the cloud, the VMs and the API server; the real container.Queue (API client) is not exercised',
         'bounded liveness only: convergence within D on sampled fault schedules, no claim about unbounded "eventually"',
@@ -35,7 +35,7 @@ CHECKS['C15'] = {
     'units': [
         unit('live', 'dispatchcloud_c14', '^TestVerifC15Liveness$',
              {'shards': 10, 'timeout': 500, 'env': {'VERIF_SCENARIOS': 2, 'VERIF_MAXN': 120}},
-             {'shards': 16, 'timeout': 1700, 'env': {'VERIF_SCENARIOS': 30, 'VERIF_MAXN': 500, 'VERIF_SLOWQUOTA': 1}},
-             rapid=False, crash_is_violation=True),
+             {'shards': 16, 'timeout': 1700, 'env': {'VERIF_SCENARIOS': 30, 'VERIF_MAXN': 500, 'VERIF_SLOWQUOTA': 1, 'VERIF_DCAP_S': 300}},
+             rapid=False, crash_is_violation=True, tolerate_infra=2),
     ],
 }
